@@ -223,11 +223,16 @@ func (r *gatewayController) buildCanaryWeightHttpRoutes(rules []gatewayv1beta1.H
 	for i := range rules {
 		rule := rules[i]
 		_, stableRef := getServiceBackendRef(rule, r.conf.StableService)
+		_, canaryRef := getServiceBackendRef(rule, r.conf.CanaryService)
 		if stableRef == nil {
+			// a rule routing to nothing but the canary service was generated by an earlier match
+			// step; it is not part of a weight step
+			if canaryRef != nil && len(rule.BackendRefs) == 1 {
+				continue
+			}
 			desired = append(desired, rule)
 			continue
 		}
-		_, canaryRef := getServiceBackendRef(rule, r.conf.CanaryService)
 		if canaryRef == nil {
 			canaryRef = stableRef.DeepCopy()
 			canaryRef.Name = gatewayv1beta1.ObjectName(r.conf.CanaryService)
